@@ -10,7 +10,7 @@
    entered with override=False while the prefix is bound to another namespace
    and the namespace is bound to some prefix - the only place where the two
    dictionaries stop being inverse of each other. *)
-From RV Require Import Namespace.Model Namespace.Dict Namespace.StoreInv Namespace.Proofs Namespace.Final.
+From RV Require Import Namespace.Model Namespace.Dict Namespace.StoreInv Namespace.Proofs Namespace.Final Namespace.Trie.
 
 (* After any history of bind / qname / curie / compute_qname(_strict) / normalizeUri /
    expand_curie / reset operations that stays outside the F6b region: namespaces() lists
@@ -147,3 +147,26 @@ Example C17_nonvacuous :
     [[([97], e)]; [([97], e)]; [([97], e); ([97; 49], ea)]; [([97], e); ([98], ea)];
      [([97], e); ([98], ea)]; [([97], e); ([98], ea)]]%N.
 Proof. vm_compute. repeat split; reflexivity. Qed.
+
+(* get_longest_namespace on a well-formed trie (sibling keys distinct and not prefixes of
+   one another, every key below a node properly extends it) returns a key that is a prefix
+   of the value and that every other such key is a prefix of - the longest one; None iff no
+   key is a prefix of the value.  PARTIAL: that insert_trie keeps a trie well-formed (so
+   that this holds "for any insertion order") is not proved; it is exercised by the
+   correspondence runs and checked exhaustively for 5 nested namespaces below. *)
+Theorem C17_trie_partial : forall t v, wft t ->
+  match gln t v with
+  | Some k => In k (trie_keys t) /\ starts_with v k = true /\
+              forall k', In k' (trie_keys t) -> starts_with v k' = true -> starts_with k k' = true
+  | None => forall k', In k' (trie_keys t) -> starts_with v k' = false
+  end.
+Proof. intros t v H. exact (gln_longest t H v). Qed.
+Print Assumptions C17_trie_partial.
+
+(* all 120 insertion orders of h:e/ h:e/a h:e/a/ h:e/a/b/ h:e/ab, six IRIs each *)
+Example C17_trie_all_orders_sample :
+  let e := [104; 58; 101; 47]%N in
+  let vs := [e; e ++ [97]; e ++ [97; 47]; e ++ [97; 47; 98; 47]; e ++ [97; 98]]%N in
+  let us := [e ++ [97; 47; 98; 47; 120]; e ++ [97; 98; 99]; e ++ [120]; e ++ [97; 47; 120]; [104; 58]; e ++ [97]]%N in
+  forallb (fun p => forallb (fun u => opt_eqb str_eqb (gln (build p) u) (longest_of vs u)) us) (perms vs) = true.
+Proof. vm_compute. reflexivity. Qed.
